@@ -161,6 +161,27 @@ def run(ctx):
             viol.append({"op": "connect", "case": name, "what": "connect (%s): errmsg is not the text of that NO: %s" % (name, out[:160])})
         if want != "b1" and "auth=b1" in out:
             viol.append({"op": "connect", "case": name, "what": "connect (%s) failed but the client is marked authenticated" % name})
+    # the emulated rename (server without VERSION) against the reference server, no fault anywhere: every reply of the sequence
+    # is OK, so the result is True — whatever the script holds (empty, one byte, no final newline, look-alike lines)
+    import refserver, prop_C14
+    for body in prop_C14.BODIES + [b"\r\n", b"0", b"#"]:
+        for act in (False, True):
+            srv = refserver.RefServer(r, scripts={b"old": body, b"by": b"keep;\r\n"}, active=(b"old" if act else None), version=False, faults={})
+            s = msref.Session()
+            g = srv.greeting()
+            c_out = s.connect(b"", [], "user", "pw", server=srv)
+            reqs = ["c op=new", msref.req_connect(g, [], "user", "pw", later=list(s.wire.segments))]
+            nseg = len(s.wire.segments)
+            out = s.op("renamescript", "old", "new")
+            reqs.append(msref.req_op("renamescript", "old", "new", later=list(s.wire.segments[nseg:])))
+            lines += reqs
+            expect += ["ok", c_out, out]
+            evals += 1
+            nontriv += 1
+            statuses = [seg.split(b"\r\n")[-2].split(b" ")[0] for seg in s.wire.segments[nseg:] if seg.endswith(b"\r\n")]
+            if "res=b1" not in out:
+                viol.append({"op": "renamescript", "args": "('old', 'new') emulated; script body %r, active=%s" % (body, act), "reply": repr(statuses),
+                             "what": "every reply of the emulated rename was OK (server statuses %r) but the call returned %s" % (statuses, out[:60])})
     model = run_driver(lines, live_table=False)
     diffs = [{"suite": "reader", "request": l[:300], "impl": e[:300], "model": m[:300]} for l, e, m in zip(lines, expect, model) if e != m]
     fresh, known = split_known("C09", viol, lambda f, v: False)
